@@ -181,18 +181,11 @@ func (o *overlayer) overlayInterface(base, overlay reflect.Value) error {
 			base.Set(overlay.Elem())
 			return nil
 		}
-		if overlay.Elem().Type() == base.Elem().Type() {
-			// they're the same underlying type, just
-			// overlay-away (leave the base as an interface
-			// so we fall into the next case)
-			if err := o.overlayField(base, overlay.Elem()); err != nil {
-				return fmt.Errorf("failed to overlay interface %s on interface %s (iface type %s): %s",
-					overlay.Elem().Type(), base.Elem().Type(), base.Type(), err)
-			}
-			return nil
-		}
-		// interface values don't have the same type, and neither is
-		// nil, treat it the same way as if base is nil, and just overlay.
+		// neither is nil: the overlay's value is an ordinary value
+		// (nothing inside an interface is pointerified, so there is no
+		// set/unset distinction to merge by), whether or not it has the
+		// same type as the base's. Treat it the same way as if base is
+		// nil, and just overlay.
 		base.Set(overlay.Elem())
 		return nil
 	case reflect.Ptr:
